@@ -249,7 +249,7 @@ def check_C16(rep, fl):
     props_policy.check_policy_forwarding(rep, fl)
     # ignore_internal_cost reaches the processor as the builder was told (R16.4 checks finalize -> processor)
     import props_panic
-    props_panic.check_builder_plumbing(rep, fl, skip_sites=("num_to_keep literal",))
+    props_panic.check_builder_plumbing(rep, fl, only_sites=("default ignore_internal_cost", "set_ignore_internal_cost", "flags -> processor", "key builder / coster / callback", "set_* keeps ignore_internal_cost", "set_* keeps coster"))
     props_store.check_sweeper(rep, fl)
 
 
@@ -899,6 +899,10 @@ def check_C17(rep, fl):
     check_dropsets(rep, fl)
     check_metrics_core(rep, fl)
     check_metric_sites(rep, fl)
+    # "with metrics enabled": the flag creates the Op metrics and hands the same handle to the policy, and the
+    # setters carry the flag
+    import props_panic
+    props_panic.check_builder_plumbing(rep, fl, only_sites=("metrics flag", "set_metrics", "set_* keeps metrics"))
     # "from any number of threads": every handle counts into the same Metrics and drives the same policy
     check_handle_sharing(rep, fl, fields=("metrics", "policy", "store", "insert_buf_tx"))
 
@@ -935,13 +939,62 @@ def check_handle_sharing(rep, fl, rule="R15.5", fields=None):
               "a cloned handle does not share the state of its origin: %s" % "; ".join(bad))
 
 
+SHRINKING = re.compile(r"Vec::(<[^>]*>::)?(truncate|pop|dedup|dedup_by|dedup_by_key|retain|retain_mut|remove|swap_remove|split_off|resize|set_len|insert|sort|sort_unstable|reverse)$"
+                       r"|<impl \[T\]>::(sort|sort_unstable|sort_by|sort_by_key|reverse|rotate_left|rotate_right|fill)$")
+
+
+def batch_edits(body):
+    """Calls that drop, reorder or rewrite elements of a Vec<u64> (the lookup batch) in `body`: [callee names]."""
+    out = []
+    for bi, t in body.calls():
+        c = body.callee_of(t)
+        if SHRINKING.search(c) and t.get("argtys") and "u64" in t["argtys"][0] and user_code_span(t):
+            out.append(c.split("::")[-1])
+        elif callee_matches(c, "Vec::drain") and t.get("argtys") and "u64" in t["argtys"][0] and user_code_span(t):
+            a = [norm(x) for x in body.call_args(t)]
+            if not (len(a) == 2 and a[1][0] == "agg" and a[1][2].endswith("RangeFull")):
+                out.append("drain(partial)")
+    return out
+
+
+def user_code_span(t):
+    sp = t.get("sp") or {}
+    return str(sp.get("f", "")).startswith("src/")
+
+
+def check_batch_applied(rep, fl, rule="R15.4"):
+    """TinyLFU::increments applies every key of the batch it was handed: one iteration over the parameter itself
+    (no skip / take / filter / step_by in front of it), increment(elem) in every round, and the batch is not
+    shortened or de-duplicated first (two lookups of one key count twice)."""
+    facts = fl.facts
+    b = facts.body("policy::TinyLFU::increments")
+    it = single_iteration(facts, b)
+    ok = it is not None
+    why = "no single iteration in increments"
+    if ok:
+        comps = it.components()
+        param = V(b.local_name.get(2, "arg2"))
+        ok = len(comps) == 1 and comps[0][1] == "item" and norm(comps[0][2]) == param
+        why = "increments iterates over %s, not over the whole batch" % show(it.source)
+        if ok:
+            inc = it.calls_to("policy::TinyLFU::increment")
+            ok = len(inc) == 1 and it.every_round([inc[0][0]]) and it.indexed(it.body.call_args(inc[0][1])[1]) == ("index", param, ("elem",))
+            why = "increment(elem) is not called once per key of the batch"
+        if ok:
+            ed = batch_edits(it.body)
+            ok = not ed
+            why = "the batch is edited before it is applied (%s)" % ", ".join(ed)
+    rep.check(ok, rule, fl, b, "every key of the batch", "increments applies increment to every key of the batch, duplicates included", why)
+
+
 def check_C15(rep, fl):
     facts = fl.facts
     # every handle feeds the same lookup buffer: a batch fills up across handles and nothing is lost with a handle
     check_handle_sharing(rep, fl, fields=("get_buf", "policy", "metrics"))
+    check_batch_applied(rep, fl)
     # "in batches of buffer_items": the value given to the builder is the ring's capacity
     import props_panic
-    props_panic.check_builder_plumbing(rep, fl, skip_sites=("num_to_keep literal", "default ignore_internal_cost"))
+    props_panic.check_builder_plumbing(rep, fl, only_sites=("set_buffer_items", "buffer_items -> ring", "metrics flag", "set_metrics", "set_* keeps buffer_items", "set_* keeps metrics"))
     # R15.1 get / get_mut push the index before the store lookup, hit or miss
     for m in ("get", "get_mut"):
         b = fl.cache_fn(m)
@@ -997,6 +1050,9 @@ def check_C15(rep, fl):
         emptied = clears + repl
         ok = bool(emptied) and (must_pass_through(rb, emptied, from_bi=pp_[0][0]) or any(block_dominates(rb, e, pp_[0][0]) for e in emptied))
         rep.check(ok, "R15.2", fl, rb, "emptied", "the batch buffer is emptied whatever the outcome of the flush", "after a flush the buffer can keep its contents: the same lookups are recorded twice")
+    ed = batch_edits(rb)
+    rep.check(not ed, "R15.2", fl, rb, "batch not edited", "the pending batch is only appended to, handed over and emptied",
+              "the pending batch is edited before it is handed over (%s): lookups are lost without being accounted as dropped" % ", ".join(ed), loc=None)
     # R15.3 policy push
     pb = fl.policy_fn("push")
     check_policy_push(rep, fl, pb)
